@@ -96,10 +96,12 @@ Proof.
   assert (Hvt : lget [("", cls)] "" = Some cls) by reflexivity.
   destruct (getStringHash_refines cls a objs globs [("", cls)] F (Hspec _ Hvt) (init_state m) st0
               (List.length msg / 64 + 2000) "msg" 0 msg "out" 0 (repeat 0%N (ha_hlen a)))
-    as (s' & stf & Ecall & Hd & Hokf & Hby & _ & Hkept & _); try reflexivity; try assumption.
+    as (s' & stf & Ecall & Hd & Hokf & Hby & _ & _ & Hkept & _); try reflexivity; try assumption.
   - clear - HF. lia.
+  - left. reflexivity.
   - apply bytes_at_object, Hmsg.
   - clear - Hlen. lia.
+  - left. reflexivity.
   - apply bytes_at_zeros, Hout.
   - apply repeat_length.
   - change RefineHashDefs.hash_prog with SrcRun.hash_prog in Ecall. unfold zlen. rewrite Ecall. cbn [of_res snd].
@@ -140,9 +142,9 @@ Proof.
     [|discriminate]. cbn [option_map]. clear Hgf.
   exists (ha_out a (hs_h st')). split; [reflexivity|].
   (* constructor *)
-  destruct (fb_ctor_refines vt hbuf Hh1 Hh2' fuel st (match block with Some _ => VPtr "blk" 0 | None => VNull end) block stream
+  destruct (fb_ctor_refines vt "fp" hbuf Hh1 Hh2' fuel st (match block with Some _ => VPtr "blk" 0 | None => VNull end) block stream
               {| cf_data := map Z.of_N stream; cf_pos := 0; cf_eof := false |})
-    as (s1 & Ector & Hwf1 & Hrep1 & Hfr1 & Hsh1 & Hloc1 & Hpre1 & Hfresh1 & _ & _); try reflexivity; try assumption.
+    as (s1 & Ector & Hwf1 & Hrep1 & Hfr1 & _ & Hsh1 & Hloc1 & Hpre1 & Hfresh1 & _ & _); try reflexivity; try assumption.
   { unfold fuel. clear. lia. }
   { destruct block as [b|]; cbn [blk_arg]; [|reflexivity]. destruct (Hblk b eq_refl) as (Hb1 & Hb2 & Hb3).
     exists "blk", 0. split; [reflexivity|]. split; [reflexivity|]. split; [apply bytes_at_object, Hb1|]. split; [lia|exact Hb3]. }
@@ -151,10 +153,11 @@ Proof.
   assert (Hok1 : hasher_ok a objs globs st0 (mem s1)).
   { apply (hok_read a objs globs Hglobs st0 m); [exact Hok| |exact Hsh1].
     intros k Hk. apply Hfr1. unfold fb_owned in Hk. apply orb_false_iff in Hk. apply Hk. }
-  destruct (getFileHash_refines cls a objs globs vt F (Hspec _ Hvt) hbuf Hh1 Hh2' eq_refl Hblock Hglobs s1 st0 fuel
+  destruct (getFileHash_refines cls a objs globs vt F (Hspec _ Hvt) "fp" hbuf Hh1 Hh2' eq_refl Hblock Hglobs s1 st0 fuel
               (fb_new hbuf block stream) (List.length stream / 64 + 3)%nat st' "out" 0 (repeat 0%N (ha_hlen a)))
-    as (s2 & Ecall & Hok2 & Hby2 & _ & Hkept2 & _); try reflexivity; try assumption.
+    as (s2 & Ecall & Hok2 & Hby2 & _ & _ & Hkept2 & _); try reflexivity; try assumption.
   { unfold fuel. clear - HF. lia. }
+  { left. reflexivity. }
   { apply (bytes_at_frame (is_prefix "buf.") m); [exact Hfr1|reflexivity|]. apply bytes_at_zeros, Hout. }
   { apply repeat_length. }
   change RefineHashDefs.hash_prog with SrcRun.hash_prog in Ecall. rewrite Ecall. cbn [of_res snd].
